@@ -6,7 +6,8 @@
      verb     "GET" | "POST" | "PUT" | "DELETE" | "Static" (a two-argument method that is not a verb)
      path     atoms: "lit:/x" | "local" | "pkg" | "imported" | "shadow" (a local constant hiding a package-level
               constant of the same name and another value), concatenated with +
-     handler  "method" | "ptrmethod" | "func" | "importedfunc" | "importedmethod" | "literal"
+     handler  "method" | "ptrmethod" | "func" | "importedfunc" | "importedmethod" | "literal" | "localtwin" (a local function
+              called TopLevel like the imported one: handlers are told apart by what they ARE, not by their short name)
      input    "none" | "int" | "struct" | "slice" | "ptr"      (c.Bind(&in) / c.Bind(in) with in a pointer)
      query    atoms: "plain:<name>" (c.QueryParam) | "bool:<name>" | "int64:<name>" (typed helpers) | "generic:<name>" (QueryParamInt[IdDossier]) | "pkggeneric:<name>" (inner.QueryParamInt[IdDossier])
                     | "late:<name>" (c.QueryParam read AFTER a nested block that answers early: every later read still is an input)
@@ -43,7 +44,7 @@ QType(a) == CASE QKind(a) = "plain" -> "string" [] QKind(a) = "late" -> "string"
 
 HandlerName(r, idx) == CASE r.handler \in {"method", "ptrmethod"} -> "handle" \o ToString(idx)
                          [] r.handler = "func" -> "plain" \o ToString(idx)
-                         [] r.handler = "importedfunc" -> "TopLevel"
+                         [] r.handler \in {"importedfunc", "localtwin"} -> "TopLevel"   \* localtwin: a function of the route file named like the imported one, with a body of its own
                          [] r.handler = "importedmethod" -> "HandleExt"
                          [] OTHER -> "Anonymous"                 \* followed by a source position
 
